@@ -226,6 +226,11 @@ def exhaustive_cases(tier):
                 steps = [{'submit': pattern == 'always' or (pattern == 'alternate' and i % 2 == 0),
                           'down': 1 if pattern != 'always' or i % 2 == 0 else 0, 'outcome': o} for i, o in enumerate(outs)]
                 yield {'N': 100, 'nego': ['ok'], 'peer_supports': True, 'steps': steps, 'style': k % 4}
+    # the negotiation confirmed at the k-th attempt for every k (k = 11: never within the ten attempts), by both kinds of loss and mixed
+    steps = [{'submit': True, 'down': 1, 'outcome': o} for o in ('ok', 'ack_lost', 'ok', 'up_lost', 'ok', 'ok')]
+    for k in range(0, 11):
+        for kinds in (['lost'], ['acklost'], ['lost', 'acklost']):
+            yield {'N': 100, 'nego': [kinds[i % len(kinds)] for i in range(k)] + ['ok'], 'peer_supports': True, 'steps': steps, 'style': k % 4}
 
 
 _step = st.fixed_dictionaries({'submit': st.booleans(), 'down': st.sampled_from([0, 0, 1, 1, 2]),
@@ -235,7 +240,8 @@ _step = st.fixed_dictionaries({'submit': st.booleans(), 'down': st.sampled_from(
 @st.composite
 def random_case(draw, _depth=0):
     supports = draw(st.sampled_from([True, True, True, False]))
-    nego = draw(st.one_of(st.just(['ok']), st.lists(st.sampled_from(['ok', 'lost', 'acklost']), max_size=10)))
+    nego = draw(st.one_of(st.just(['ok']), st.lists(st.sampled_from(['ok', 'lost', 'acklost']), max_size=10),
+                          st.builds(lambda k, kind: [kind] * k + ['ok'], st.integers(0, 10), st.sampled_from(['lost', 'acklost']))))
     N = draw(st.sampled_from([100, 100, 1, 2, 3, 4, 5, 6]))
     n = draw(st.sampled_from([3, 8, 20, 40, 120])) if N == 100 else draw(st.integers(1, 14))
     steps = draw(st.lists(_step, min_size=1, max_size=n))
